@@ -31,14 +31,14 @@ if a.seeded:
             continue
         m = json.load(open(mp))
         jobs.append((d, "/verif/seeded/%s/patch.diff" % d, [m["breaks_property"]] + m.get("also_run", [])))
-    out_path = "/verif/seeded/RESULTS.tsv"
+    out_path = "/verif/seeded/RESULTS.tsv" + (".partial" if a.only else "")
 else:
     for l in open("/verif/mutants/INDEX.tsv"):
         name, props = l.rstrip("\n").split("\t")
         if not name.startswith(a.only):
             continue
-        jobs.append((name, "/verif/mutants/%s.diff" % name, [] if props == "-" else props.split(",")))
-    out_path = "/verif/mutants/RESULTS.tsv"
+        jobs.append((name, "/verif/mutants/%s.diff" % name, props.split(",")))
+    out_path = "/verif/mutants/RESULTS.tsv" + (".partial" if a.only else "")
 
 def setup(k):
     w = "%s/%d" % (ROOT, k)
@@ -78,12 +78,13 @@ def worker(k):
         if a.suite:
             r = sh("cargo test --workspace --no-fail-fast --offline", cwd=w + "/repo", timeout=3600)
             suite = "suite=pass" if r.returncode == 0 else "suite=FAIL"
-        targets = props if props else os.environ.get("NEG_PROPS", "C10").split()
-        for p in targets:
+        for p in props:
+            neg = p.startswith("-")   # negative control: the check must stay silent
+            p = p.lstrip("-")
             t0 = time.time()
             r = sh(["./check", p, a.tier], cwd=w + "/verif", env=env, timeout=7200)
             sig = [l.strip() for l in r.stdout.splitlines() if "signature=" in l]
-            if props:
+            if not neg:
                 verdict = {1: "CAUGHT", 0: "MISSED"}.get(r.returncode, "OTHER(%d)" % r.returncode)
             else:
                 verdict = {0: "SILENT-OK"}.get(r.returncode, "ALARM(%d)" % r.returncode)
